@@ -257,6 +257,16 @@ func c04Worker(c *core.Collector, x *Ctx) {
 			run("big-frame-tail-cut", frames, []int{s0 + 1023, e0 - k})
 			run("big-frame-tail-cut", frames, []int{1023, 2046, e0 - k})
 		}
+		// ... and the same frame followed by a second frame of maximal size: the read that follows the cut in the tail is a FULL
+		// one (1023 bytes), so that what the parser holds (almost all of the first frame) plus one read is as large as it gets
+		{
+			b2 := hookFrame(v19, 0x0900, r.U16(), false, 0, 0, bytes.Repeat([]byte{0x7e}, 1023))
+			frames2 := [][]byte{a, b, b2, d}
+			for k := 1; k <= 12; k++ {
+				run("big-frame-then-big-frame", frames2, []int{e0 - k})
+				run("big-frame-then-big-frame", frames2, []int{s0 + 1023, s0 + 2046, e0 - k})
+			}
+		}
 		c.Count("maximal_size_frames", 1)
 	})
 	// (4) ONE parser for a long time: tens of megabytes of big and small frames through the buffered path in reads of every size,
